@@ -498,7 +498,7 @@ def gen(seed, run, tier='quick'):
         s1 = rng.choice(noref_syms if x < 0.25 else user_syms
                         if x < 0.7 else syms)
         s2 = rng.choice(user_syms if rng.random() < 0.5 else syms)
-        n = rng.choice([2, 2, 3, -1, -2, 0, 1, 4, -3])
+        n = rng.choice([2, 2, 3, -1, -2, 0, 1, 4, -3, 4, -4, 10])
         if form in ('u**', 'q**'):
             bvec, num = model.expand([(s1, n)])
         elif form in ('k/u', 'k/q'):
